@@ -3,6 +3,7 @@ mod lexmc;
 mod codemc;
 mod libmc;
 mod tmomc;
+mod histmc;
 mod workers;
 mod run;
 mod hostobj;
@@ -45,6 +46,7 @@ fn main() {
         "codemc" => codemc::run(&args),
         "libmc" => libmc::run(&args),
         "tmomc" => tmomc::run(&args),
+        "histmc" => histmc::run(&args),
         "progmc-core" => progmc::run_profile(
             &args,
             run::RunCfg::default(),
